@@ -42,6 +42,7 @@ theorem wf_s0Func (result : Option VT) : WF (s0Func result) := by
 
 theorem func_sim (ns : NumSem) (hns : NumOK ns) (ctx : Ctx) (params locals : List VT) (result : Option VT) (body : List EInstr)
     (cf : Model.CFunc) (args : List Val) (fuel : Nat)
+    (hco : CallOK ns { ctx with localTypes := params ++ locals })
     (hc : compileFunc ctx params locals result body = .ok cf) (hargs : args.map vtOf = params) :
     match runFuncSrc ns fuel locals result body args with
     | .value v => runFuncTgt ns fuel cf args = .value v
@@ -60,7 +61,7 @@ theorem func_sim (ns : NumSem) (hns : NumOK ns) (ctx : Ctx) (params locals : Lis
       have hfin := check_of_not hchk
       have hw0 := wf_s0Func result
       have hlt := locTyped_init ctx params locals args hargs
-      have hsim := (sim_all ns hns { ctx with localTypes := params ++ locals } fuel).1 body (s0Func result) s1 out dead [] (initLocals locals args)
+      have hsim := (sim_all ns hns { ctx with localTypes := params ++ locals } hco fuel).1 body (s0Func result) s1 out dead [] (initLocals locals args)
         (initMSt locals args) hcb hw0 (Rel.nil _) rfl hlt
       -- the emitted function
       have hcf : cf.localTypes = locals ∧ cf.body = out ∧ cf.result = result ∧
